@@ -27,6 +27,10 @@ def amsgOfJson (j : Json) : Except String AMsg := do
   | "other" => pure .other
   | _ => throw s!"amsg {t}"
 
+def whoOfStr (k : String) (i : Nat) : Except String Who :=
+  match k with
+  | "reader" => pure .reader | "timer" => pure .timer | "app" => pure (.app i) | "closer" => pure (.closer i) | _ => throw s!"who {k}"
+
 def opOfJson (j : Json) : Except String Op := do
   let k ← getStr j "op"
   match k with
@@ -55,6 +59,11 @@ def opOfJson (j : Json) : Except String Op := do
   | "appSend" => pure (.appSend (← getNat j "i") (← amsgOfJson (← j.getObjVal? "m")))
   | "appExit" => pure (.appExit (← getNat j "i"))
   | "failWrites" => pure .failWrites
+  | "pauseWrites" => pure .pauseWrites
+  | "resumeWrites" => pure .resumeWrites
+  | "h2prior" => pure .h2prior
+  | "h2c" => pure .h2c
+  | "resume" => pure (.resume (← whoOfStr (← getStr j "w") (← getNat j "i")))
   | "h2NoCredit" => pure .h2NoCredit
   | "failAfter" => pure (.failAfter (← getNat j "k"))
   | "terminate" => pure .terminate
@@ -125,7 +134,7 @@ def Cand.key (c : Cand) : String :=
   let insts := (List.range s.n).map (fun i => let x := s.inst i
     s!"{repr x.kind}{x.hasApp}{x.closed}{repr x.hst}{repr x.wst}{x.accepted}{repr x.q}{repr x.waiting}{x.exiting}{x.exited}{x.respEnded}{x.h2dead}{x.h2buf}{x.waitingRecv}{x.direct}{repr x.inflight}{x.discPuts}{x.access}")
   let conts := (allWhos s).map (fun w => s!"{repr (s.cont w)}")
-  s!"{c.seen.length}|{(c.pendingIdx.map (·.1))}|{s.outs.length}|{insts}|{s.live}|{repr s.our}{repr s.their}{s.keepAlive}{s.wsMode}{s.reqComplete}{s.pclosed}{rpcName s.rpc}{s.eofSeen}{s.closedByServer}{s.failWrites}{s.wc}{s.failAt}{s.timer}{s.terminated}{s.now}|{conts}|{s.closers}|{s.ready.map whoName}{s.draining.map (fun p => (whoName p.1, p.2))}{s.noCredit}|{s.closeAt}{s.doneAt}"
+  s!"{c.seen.length}|{(c.pendingIdx.map (·.1))}|{s.outs.length}|{insts}|{s.live}|{repr s.our}{repr s.their}{s.keepAlive}{s.wsMode}{s.reqComplete}{s.pclosed}{rpcName s.rpc}{s.eofSeen}{s.closedByServer}{s.failWrites}{s.wc}{s.failAt}{s.timer}{s.terminated}{s.now}|{conts}|{s.closers}|{s.ready.map whoName}{s.draining.map (fun p => (whoName p.1, p.2))}{s.noCredit}|{s.wpaused}{s.wblocked.map whoName}{s.wlockq.map whoName}{s.prior}{s.lateIdle}|{s.closeAt}{s.doneAt}"
 
 def dedup (cs : List Cand) : List Cand :=
   (cs.foldl (fun (acc : List String × List Cand) c => let k := c.key; if acc.1.contains k then acc else (k :: acc.1, acc.2 ++ [c])) ([], [])).2
